@@ -93,7 +93,7 @@ class ActionJsonnet(Action):
                 elif self._validator is not None:
                     self._validator.validate(val)
                 value[num] = val
-            except (TypeError, RuntimeError, ArgumentError) + get_jsonschema_exceptions() + get_loader_exceptions() as ex:
+            except (TypeError, ValueError, RuntimeError, ArgumentError) + get_jsonschema_exceptions() + get_loader_exceptions() as ex:
                 elem = "" if not islist else " element " + str(num + 1)
                 raise TypeError(f'Parser key "{self.dest}"{elem}: {ex}') from ex
         return value if islist else value[0]
